@@ -88,7 +88,7 @@ func peerAddr(i int) *net.UDPAddr {
 }
 
 func patternNames() []string {
-	return []string{"idle", "both60", "both10", "burst", "newpeer", "sameip", "newpeer-at-nonce-expiry"}
+	return []string{"idle", "both60", "both10", "burst", "newpeer", "sameip", "newpeer-at-nonce-expiry", "manypeers"}
 }
 
 // makeTraffic builds the (deterministic) schedule of a pattern up to horizon.
@@ -137,6 +137,20 @@ func makeTraffic(name string, horizon time.Duration) traffic {
 		every(&tr.App, appPhase, time.Minute, 0)
 		every(&tr.Peer, peerPhase-20*time.Second, 10*time.Second, 0)
 		every(&tr.Peer, peerPhase-15*time.Second, 10*time.Second, 2)
+	case "manypeers":
+		// "any number of peers": one write to each of 140 peers on 140 IP addresses (a conference), then the app is
+		// silent; every peer has a never-written sibling on its IP address (covered by the permission only); the
+		// siblings of the first ten send every 20 s, the others every 5 min.
+		for p := 0; p < 140; p++ {
+			ip := net.IPv4(10, 2, byte(p/200), byte(1+p%200)).To4()
+			tr.Peers = append(tr.Peers, &net.UDPAddr{IP: ip, Port: 5000}, &net.UDPAddr{IP: ip, Port: 5001})
+			tr.App = append(tr.App, tev{appPhase + time.Duration(p)*50*time.Millisecond, 2 * p})
+			period := 5 * time.Minute
+			if p < 10 {
+				period = 20 * time.Second
+			}
+			every(&tr.Peer, peerPhase+time.Duration(p)*70*time.Millisecond, period, 2*p+1)
+		}
 	case "newpeer-at-nonce-expiry":
 		// one write to peer 0 at the start; then, while the hourly nonce goes stale, a first write to a new peer
 		// every 20 s. Every new peer 2k+1 has a sibling 2k+2 on the same IP address (other port) that is never
@@ -1192,7 +1206,19 @@ func TestC14Faults(t *testing.T) {
 					"probes_c2p": b.SentC2P, "probes_p2c": b.SentP2C, "transactions": txStrings(b.Txs)})
 			}
 		}
-		for _, d1 := range allDeviations(b.Txs, fullAlphabet) {
+		devs := allDeviations(b.Txs, fullAlphabet)
+		if cb.pat == "manypeers" {
+			// 2 300 transactions: the deviations are limited to the transactions that name many peers at once
+			// (the periodic permission refreshes) - the others are those of the "burst" pattern, 140 times over
+			var keep []deviation
+			for _, d := range devs {
+				if strings.HasPrefix(d.Tx, "CreatePermission/refresh#") && (strings.HasSuffix(d.Tx, "#1") || strings.HasSuffix(d.Tx, "#2") || strings.HasSuffix(d.Tx, "#3")) {
+					keep = append(keep, d)
+				}
+			}
+			devs = keep
+		}
+		for _, d1 := range devs {
 			if !mine(key + d1.String()) {
 				continue
 			}
@@ -1237,6 +1263,9 @@ func TestC14Pairs(t *testing.T) { //nolint:gocognit,cyclop
 	}
 	isExtreme := func(d deviation) bool { return d.Kind != "dropreq" || d.K == 1 || d.K == 6 }
 	for _, cb := range combos() {
+		if cb.pat == "manypeers" {
+			continue // single deviations on its many-peer requests only (faults part)
+		}
 		base := scenario{Cfg: cb.cfg, Pattern: cb.pat, Horizon: horizon}
 		key := "D2/75min|" + cb.cfg.Name + "|" + cb.pat + "|"
 		rep.Current(base)
@@ -1294,6 +1323,9 @@ func TestC14Close(t *testing.T) {
 	idx := 0
 	for c := 2*time.Second + 350*time.Millisecond; c <= horizon+step; c += step {
 		for _, cb := range combos() {
+			if cb.pat == "manypeers" {
+				continue
+			}
 			idx++
 			if idx%nsh != shard {
 				continue
